@@ -9,6 +9,7 @@
 //!   C04:drain-panic    BlockWriter panics
 //!   C01:inflate-output a valid stream (any chunking) does not come out as the original bytes
 //!   C04:inflate-prefix a truncated stream yields something that is not a prefix of the original bytes
+//!   C04:contract-mu    a real decompressor violates the `Drain.Contract` fields (`mu = P(F) - E` bound, read_decreases)
 use flute::core::lct::Cenc;
 use flute::verif_hooks as hk;
 use harness_core::{guarded, hex, Ctx, Engine, Oracle, Rng};
@@ -280,6 +281,104 @@ fn run_bw(t: &[&str], o: &mut Oracle) -> String {
     }
 }
 
+/// number of output bytes the first `f` bytes of `stream` determine, by an independent decoder fed from a slice
+/// (no ring buffer, no BlockWriter): read until end of input or error
+fn determined_output(cenc: Cenc, prefix: &[u8]) -> usize {
+    use std::io::Read;
+    let mut total = 0usize;
+    let mut buf = [0u8; 4096];
+    let mut count = |r: &mut dyn Read| loop {
+        match r.read(&mut buf) {
+            Ok(0) | Err(_) => break,
+            Ok(n) => total += n,
+        }
+    };
+    match cenc {
+        Cenc::Zlib => count(&mut flate2::read::ZlibDecoder::new(prefix)),
+        Cenc::Deflate => count(&mut flate2::read::DeflateDecoder::new(prefix)),
+        Cenc::Gzip => count(&mut flate2::read::GzDecoder::new(prefix)),
+        Cenc::Null => {}
+    }
+    total
+}
+
+/// `dc <cenc> <chunk-hex>...` : differential check of the fields of `Drain.Contract` on the REAL decompressors
+/// (`Decompress{Zlib,Deflate,Gzip}` over the real ring): with F = input bytes accepted so far, E = bytes handed out so
+/// far and P(F) = output determined by those F bytes (independent slice decoder), the candidate measure
+/// `mu = P(F) - E` must (1) never be negative - the decoder is a prefix-monotone transducer, (2) bound the number of
+/// consecutive non-empty reads (`read_decreases`: each uses up at least one unit), so that every drain loop ends.
+fn run_dc(t: &[&str], o: &mut Oracle) -> String {
+    if t.len() < 3 {
+        return "bad-op".to_string();
+    }
+    let Some(cenc) = cenc_of(t[1]) else { return "bad-op".to_string() };
+    let mut chunks = Vec::new();
+    for c in &t[2..] {
+        match unhex(c) {
+            Some(v) if !v.is_empty() => chunks.push(v),
+            _ => return "bad-op".to_string(),
+        }
+    }
+    let r = guarded(move || {
+        let mut fails: Vec<String> = Vec::new();
+        let mut fed: Vec<u8> = chunks[0].clone();
+        let Some(mut d) = hk::DecompressHandle::new(cenc, &chunks[0]) else { return fails };
+        let mut buf = vec![0u8; chunks[0].len()];
+        let mut emitted = 0usize;
+        let mut drain = |d: &mut hk::DecompressHandle, fed: &[u8], emitted: &mut usize, fails: &mut Vec<String>| {
+            let p = determined_output(cenc, fed);
+            let budget = p.saturating_sub(*emitted);
+            let mut nonempty = 0usize;
+            loop {
+                match d.read(&mut buf) {
+                    hk::HookRead::Ok(n) if n > 0 => {
+                        nonempty += 1;
+                        *emitted += n;
+                        if *emitted > p {
+                            fails.push(format!("after {} input bytes the decoder handed out {} bytes, the input determines only {}", fed.len(), *emitted, p));
+                            return;
+                        }
+                        if nonempty > budget {
+                            fails.push(format!("{} non-empty reads with mu = {} (read_decreases violated)", nonempty, budget));
+                            return;
+                        }
+                    }
+                    _ => return,
+                }
+            }
+        };
+        drain(&mut d, &fed, &mut emitted, &mut fails);
+        for c in chunks.iter().skip(1) {
+            let mut off = 0;
+            let mut stalled = false;
+            while off < c.len() && fails.is_empty() {
+                let k = d.write(&c[off..]).unwrap_or(0);
+                fed.extend_from_slice(&c[off..off + k]);
+                off += k;
+                drain(&mut d, &fed, &mut emitted, &mut fails);
+                if k == 0 && stalled {
+                    break;
+                }
+                stalled = k == 0;
+            }
+        }
+        d.finish();
+        drain(&mut d, &fed, &mut emitted, &mut fails);
+        fails
+    });
+    match r {
+        Ok(f) if f.is_empty() => "contract-ok".to_string(),
+        Ok(f) => {
+            o.fail("C04:contract-mu", &f[0]);
+            "contract-broken".to_string()
+        }
+        Err(at) => {
+            o.fail("C04:drain-panic", &format!("decompressor panics at {}", at));
+            "PANIC".to_string()
+        }
+    }
+}
+
 pub struct RingEngine {
     live: Option<Live>,
 }
@@ -369,6 +468,7 @@ impl Engine for RingEngine {
                 _ => "bad-op".to_string(),
             },
             ("bw", _) => run_bw(&t[1..], o),
+            ("dc", _) => run_dc(&t[1..], o),
             _ => "bad-op".to_string(),
         }
     }
@@ -634,6 +734,40 @@ pub fn run(ctx: &mut Ctx, eng: &mut dyn Engine) {
         if i == 1 {
             ctx.sample(format!("ring bw {} valid stream of {} bytes ({} payload of {} bytes) in chunks {:?}", cenc, n, class, pl.len(), &sizes_list[2]));
         }
+    }
+    // 3d. the contract of Drain.Contract against the real decompressors
+    let n_dc = if thorough { 600 } else { 120 };
+    for i in 0..n_dc {
+        let cenc = cencs[i % 3];
+        let (pl, class) = payload(&mut rng, (i / 3) % 5, false);
+        let mut stream = compress(cenc, &pl, [1u32, 6, 9, 0][i % 4]);
+        match i % 7 {
+            5 => {
+                let cut = rng.range(1, stream.len() as u64) as usize;
+                stream.truncate(cut);
+            }
+            6 => {
+                let g = rng.range(1, 200) as usize;
+                stream.extend(rng.bytes(g));
+            }
+            _ => {}
+        }
+        let first = rng.range(1, 64) as usize;
+        let sizes: Vec<usize> = match i % 4 {
+            0 => vec![1],
+            1 => vec![first, 3],
+            2 => vec![first, 1400],
+            _ => vec![60000],
+        };
+        if stream.len() > 3000 && sizes[0] < 8 {
+            continue;
+        }
+        let cs: Vec<String> = chunk_by(&stream, &sizes).iter().map(|c| hex(c)).collect();
+        let line = format!("ring dc {} {}", cenc, cs.join(" "));
+        let obs = ctx.step(eng, &line);
+        ctx.evaluations += 1;
+        ctx.count(&format!("dc:{}:{}", class, obs));
+        ctx.nontrivial(&format!("dc {} {}", i, fnv(line.as_bytes())));
     }
     // 3c. pure garbage
     let n_garbage = if thorough { 1500 } else { 300 };
